@@ -4,6 +4,7 @@ Model/Dispatch — maps protocol requests to model functions (test infrastructur
 import Pycdlib.Model.Names
 import Pycdlib.Model.Mangle
 import Pycdlib.Model.Dates
+import Pycdlib.Model.Stream
 namespace Pycdlib
 
 def parseCps (s : String) : Option (List Nat) :=
@@ -54,7 +55,23 @@ def dispatchPure (toks : List String) : Option String :=
     pure s!"{gmtoffset (civil (t + off)) (civil t)} {toHex (drDate t off)} {toHex (vdDate t off)} {toHex (udfDate t off)} {toHex (tfRecord fl t off)}"
   | _ => none
 
-def dispatch (toks : List String) : IO String :=
+def dispatchIO (toks : List String) : IO (Option String) := do
+  match toks with
+  | "stream" :: path :: streams :: ops =>
+    let img ← IO.FS.readBinFile path
+    match parseStreams streams, ops.mapM parseSOp with
+    | some ss, some os =>
+      let outs := runW { img := img.toList, pos := 0, streams := ss } os
+      pure (some (" ".intercalate (outs.map SOut.show)))
+    | _, _ => pure none
+  | ["copy", left, bs, hx] =>
+    match left.toNat?, bs.toNat?, ofHex hx with
+    | some l, some b, some src => pure (some (hexs (copyData (l + 1) l b src)))
+    | _, _, _ => pure none
+  | _ => pure none
+
+def dispatch (toks : List String) : IO String := do
+  if let some s ← dispatchIO toks then return s
   match dispatchPure toks with
   | some s => pure s
   | none => pure "bad-op"
